@@ -538,6 +538,12 @@ Definition hist_model (c : World.world * list op) : list value :=
                              {'op': 'reset', 'chain': 0, 'pick': 0}, {'op': 'reset', 'chain': 0, 'pick': 2}, {'op': 'flags', 'chain': 0},
                              {'op': 'value', 'chain': 0, 'pick': 2}, {'op': 'value', 'chain': 0, 'pick': 3},
                              {'op': 'reset', 'chain': 0, 'pick': 3}, {'op': 'value', 'chain': 0, 'pick': 3}]))
+        # configurations from the chain-construction corpus whose tasks' values depend on per-namespace settings
+        for c0 in [c for c in cs if c['base'].get('file') == 'multi.json' and 'model' in str(c['files']) or 'Collect' in str(c['classes'])]:
+            c1 = dict(c0)
+            c1['ops'] = [{'op': 'build', 'base': c0['base']}] + [{'op': 'value', 'chain': 0, 'pick': k} for k in range(8)] + \
+                        [{'op': 'restart'}, {'op': 'build', 'base': c0['base']}] + [{'op': 'value', 'chain': 0, 'pick': k} for k in range(8)]
+            out.append(c1)
         # a chain is inspected while results are missing, another chain of the same configuration computes them, then
         # the first chain is asked: it loads
         out.append(dict(classes=dia, files={}, base=base, context=None,
